@@ -172,6 +172,37 @@ func unpublishedAt(r *Run, f *ssa.Function, v ssa.Value, at ssa.Instruction, dep
 		case *ssa.IndexAddr:
 			return walk(x.X)
 		case *ssa.UnOp:
+			// a local variable cell (a variable captured by a closure, or whose address is taken): the loaded
+			// pointer is whatever was stored into the cell, not something the cell's own allocation makes fresh
+			if cell, isCell := x.X.(*ssa.Alloc); isCell {
+				for _, ref := range *cell.Referrers() {
+					switch y := ref.(type) {
+					case *ssa.Store:
+						if y.Addr == ssa.Value(cell) {
+							if fi := walk(y.Val); !fi.OK {
+								return fi
+							}
+						}
+					case *ssa.MakeClosure:
+						cl := y.Fn.(*ssa.Function)
+						for bi, b := range y.Bindings {
+							if b != ssa.Value(cell) || bi >= len(cl.FreeVars) {
+								continue
+							}
+							written := false
+							core.Instrs(cl, func(in ssa.Instruction) {
+								if st, ok := in.(*ssa.Store); ok && st.Addr == ssa.Value(cl.FreeVars[bi]) {
+									written = true
+								}
+							})
+							if written {
+								return freshInfo{false, "variable " + cell.Comment + " is assigned inside a closure"}
+							}
+						}
+					}
+				}
+				return freshInfo{true, ""}
+			}
 			// value loaded from memory: fresh iff loaded from a fresh container (slice header of a fresh table, link of a fresh bucket)
 			a := core.Addr(x.X)
 			if a.Root != nil {
